@@ -29,15 +29,19 @@ impl std::fmt::Display for Death {
                     _ => "",
                 }
             ),
-            Death::Timeout(s) => write!(f, "the execution did not finish within {s} s (endless loop without a yield point in it)"),
+            Death::Timeout(s) => write!(f, "the execution did not finish within {s} s of CPU time (or 4x that + 10 s of wall-clock time): endless loop or deadlock without a yield point in it"),
             Death::Exit(c) => write!(f, "the process exited with status {c}"),
             Death::Io(e) => write!(f, "fork/pipe error: {e}"),
         }
     }
 }
 
-/// Runs `f` in a forked child and returns the bytes it produced.
+/// Runs `f` in a forked child and returns the bytes it produced. `timeout` is a budget of
+/// CPU time (RLIMIT_CPU in the child, so that a loaded machine cannot turn a slow run into a
+/// "hang"); the wall-clock backstop, for hangs that burn no CPU (deadlock), is 4x that + 10 s.
 pub fn run<F: FnOnce() -> Vec<u8>>(f: F, timeout: Duration) -> Result<Vec<u8>, Death> {
+    let cpu_secs = timeout.as_secs().max(1);
+    let wall = timeout * 4 + Duration::from_secs(10);
     unsafe {
         let mut fds = [0i32; 2];
         if libc::pipe(fds.as_mut_ptr()) != 0 {
@@ -52,6 +56,8 @@ pub fn run<F: FnOnce() -> Vec<u8>>(f: F, timeout: Duration) -> Result<Vec<u8>, D
         if pid == 0 {
             // ---- child
             libc::close(fds[0]);
+            let lim = libc::rlimit { rlim_cur: cpu_secs as libc::rlim_t, rlim_max: (cpu_secs + 2) as libc::rlim_t };
+            libc::setrlimit(libc::RLIMIT_CPU, &lim);
             let bytes = match std::panic::catch_unwind(std::panic::AssertUnwindSafe(f)) {
                 Ok(b) => b,
                 Err(_) => libc::_exit(4),
@@ -74,7 +80,7 @@ pub fn run<F: FnOnce() -> Vec<u8>>(f: F, timeout: Duration) -> Result<Vec<u8>, D
         let mut buf = [0u8; 65536];
         let mut timed_out = false;
         loop {
-            let left = timeout.saturating_sub(t0.elapsed());
+            let left = wall.saturating_sub(t0.elapsed());
             if left.is_zero() {
                 timed_out = true;
                 break;
@@ -122,7 +128,12 @@ pub fn run<F: FnOnce() -> Vec<u8>>(f: F, timeout: Duration) -> Result<Vec<u8>, D
             return Err(Death::Timeout(timeout.as_secs()));
         }
         if libc::WIFSIGNALED(status) {
-            return Err(Death::Signal(libc::WTERMSIG(status)));
+            let sig = libc::WTERMSIG(status);
+            if sig == libc::SIGXCPU || sig == libc::SIGKILL {
+                // CPU budget exhausted (soft limit: SIGXCPU, hard limit: SIGKILL)
+                return Err(Death::Timeout(timeout.as_secs()));
+            }
+            return Err(Death::Signal(sig));
         }
         let code = libc::WEXITSTATUS(status);
         if code != 0 {
